@@ -101,6 +101,18 @@ CHECKS = {
         "assumptions": ["reference interpreter in c07comb", "rapid v1.3.0; go1.26.8"],
         "jobs": [{"pkg": "c07comb", "kinds": ["single", "pipeline", "ctor"], "scale_thorough": 10, "shards_thorough": 16}],
     },
+    "C08": {
+        "level": "fault_enumeration",
+        "level_text": ("For each generated input (length 0-12), parameters and short pipeline, EVERY fault position x fault kind (final source error, callback error, cancelled per-call context, "
+                       "one/two transient source errors, transient-then-final) is executed for every stream combinator, reducer, SampleStream, and in bubbles Batch, Merge, a Pipe-fed chain and parallel.MapStream; "
+                       "oracle: delivered outputs are a prefix of the fault-free reference, the failing call reports the injected error itself (errors.Is), and after recoverable failures the whole sequence equals the reference exactly"),
+        "level_note": "The inner fault enumeration is exhaustive per generated input; the outer choice of input/parameters/pipeline is random (rapid). Trusts the reference interpreter fk.Ref and the recording doubles in sk.",
+        "technique": "fault enumeration over rapid-generated inputs; prefix/identity oracle against a reference interpreter",
+        "rule": ("kind fault-enum = one generated base case (combinator, input, parameters, pre-stages); kind fault-case = one enumerated (base, fault kind, position[s]) execution, all positions 0..len for every kind. "
+                 "non-trivial fault-case = 0 < p < len and the combinator holds partial state across calls (pending chunk, peeked item, open inner stream, half-drained run, reorder buffer...); distinct = distinct case JSON"),
+        "assumptions": ["reference interpreter fk.Ref", "recording stream doubles (sk.RecStream) implement the Stream contract", "rapid v1.3.0; go1.26.8 testing/synctest for the goroutine-backed combinators"],
+        "jobs": [{"pkg": "c08fault", "kinds": ["fault-enum", "fault-case", "fault-enum-bg", "fault-case-bg"], "scale_thorough": 10, "shards_thorough": 16, "replay_reps": 20}],
+    },
     "C04": {
         "level": "exploration",
         "level_text": ("Model-based property testing: thousands of generated operation histories (macro-ops reach wrapped, full, "
